@@ -50,8 +50,9 @@
 (*                                                                         *)
 (* Deliberate deviations: contents are ideal (manifest and blob ids, no    *)
 (* bytes, no media types: the generator's dimensions mt / feat / tmo / cmd *)
-(* are realised by the driver only); a registry repository exists once it  *)
-(* holds an object, a layout can be listed once it has an index; paging,   *)
+(* / verb / logfmt / cfgin are realised by the driver only); a registry    *)
+(* repository exists once it holds an object, a layout can be listed once  *)
+(* it has an index; paging,                                                *)
 (* authentication, retries, referrers, the per-script timeout (a blocked   *)
 (* Acquire is a deadlock here; the real one ends with the timeout) and     *)
 (* the tar file formats are left out; a foreach governs one statement      *)
